@@ -141,10 +141,14 @@ def machine() -> Dict[str, Any]:
     # the two declaring entry points; the tables may be written by helpers they call, but by
     # nothing that is not reached from them
     writers = sorted(n for n in ("equate", "translate") if n in info and info[n]["writes_t"])
-    stray = sorted(n for n, d in info.items() if d["writes_t"] and n not in ("equate", "translate")
+    stray = sorted(n for n, d in info.items() if d["writes"] and n not in ("equate", "translate")
                    and not (reaches(info, "equate", n) or reaches(info, "translate", n)))
-    if stray:
-        raise symnum.HarnessError(f"the declaration tables are written outside equate/translate: {stray}")
+    # a function on the query path that stores into the tables: they are then no longer a function
+    # of the declarations alone; modelled as "a query that finds a route adds it as a direct edge"
+    query_writes = sorted(n for n in stray if reaches(info, "convert", n))
+    if set(stray) - set(query_writes):
+        raise symnum.HarnessError(f"the declaration tables are written outside equate/translate and outside "
+                                  f"the query path: {sorted(set(stray) - set(query_writes))}")
     clears = {w: sorted(info[w]["clears"]) for w in writers}
     known = {"_find_path", "_plan_conversion"}
     # any other cached reader of the tables gets the generic stale-row model (search_generic)
@@ -164,7 +168,7 @@ def machine() -> Dict[str, Any]:
         raise symnum.HarnessError(f"writers of the declaration tables changed: {writers}")
     cleared = lambda fn, w: cache_of.get(fn) in clears[w]
     return {"cached": cached, "writers": writers, "clears": clears, "cache_of": cache_of,
-            "memo_tables": memo_tables,
+            "memo_tables": memo_tables, "query_writes_tables": query_writes,
             "explicit_memo": sorted(n for n in cached if cache_of[n] != n),
             "generic_caches": generic,
             "generic_cleared": {c: {w: cleared(c, w) for w in writers} for c in generic},
@@ -179,6 +183,8 @@ def search(mc: Dict[str, Any], N: int, L: int, timeout_ms: int) -> Dict[str, Any
     S = z3.Solver()
     S.set("timeout", timeout_ms)
     w = [{p: z3.Int(f"w{t}_{p[0]}{p[1]}") for p in pairs} for t in range(L + 1)]
+    # what was declared (the specification reads this); differs from w only when queries write
+    dcl = [{p: z3.Int(f"d{t}_{p[0]}{p[1]}") for p in pairs} for t in range(L + 1)] if mc.get("query_writes_tables") else w
     pc = [{p: z3.Int(f"pathc{t}_{p[0]}{p[1]}") for p in pairs} for t in range(L + 1)]
     pl = [{p: z3.Int(f"planc{t}_{p[0]}{p[1]}") for p in pairs} for t in range(L + 1)]
     kind = [z3.Int(f"kind{t}") for t in range(L)]
@@ -189,15 +195,18 @@ def search(mc: Dict[str, Any], N: int, L: int, timeout_ms: int) -> Dict[str, Any
     spec = [z3.Int(f"spec{t}") for t in range(L)]
     for p in pairs:
         S.add(w[0][p] == 0, pc[0][p] == NONE, pl[0][p] == NONE)
+        if dcl is not w:
+            S.add(dcl[0][p] == 0)
 
-    def fresh(t: int, i: int, j: int) -> Any:
+    def fresh(t: int, i: int, j: int, tbl: Any = None) -> Any:
         """What the code computes from the tables alone (shortest path: direct, else one hop)."""
-        direct = w[t][(i, j)]
+        tbl = w if tbl is None else tbl
+        direct = tbl[t][(i, j)]
         via = []
         for k in range(N):
             if k in (i, j):
                 continue
-            via.append((z3.And(w[t][(i, k)] != 0, w[t][(k, j)] != 0), w[t][(i, k)] + w[t][(k, j)]))
+            via.append((z3.And(tbl[t][(i, k)] != 0, tbl[t][(k, j)] != 0), tbl[t][(i, k)] + tbl[t][(k, j)]))
         expr: Any = z3.IntVal(EMPTY)
         for cond, val in reversed(via):
             expr = z3.If(cond, val, expr)
@@ -213,16 +222,24 @@ def search(mc: Dict[str, Any], N: int, L: int, timeout_ms: int) -> Dict[str, Any
             decl = kind[t] == 0
             tran = kind[t] == 2
             # declarations write both directions (a scale's edge is given the marker weight 5)
+            f = fresh(t, i, j)
+            keep_w = w[t][(i, j)]
+            if dcl is not w:
+                # a query on (i, j) that finds a route through another unit stores it as an edge
+                keep_w = z3.If(z3.And(kind[t] == 1, sel, w[t][(i, j)] == 0, f != EMPTY), f, w[t][(i, j)])
+                S.add(dcl[t + 1][(i, j)] == z3.If(z3.And(decl, sel), r[t],
+                                                 z3.If(z3.And(decl, rev), -r[t],
+                                                       z3.If(z3.And(tran, sel), 5,
+                                                             z3.If(z3.And(tran, rev), -5, dcl[t][(i, j)])))))
             S.add(w[t + 1][(i, j)] == z3.If(z3.And(decl, sel), r[t],
                                            z3.If(z3.And(decl, rev), -r[t],
                                                  z3.If(z3.And(tran, sel), 5,
-                                                       z3.If(z3.And(tran, rev), -5, w[t][(i, j)])))))
-            f = fresh(t, i, j)
+                                                       z3.If(z3.And(tran, rev), -5, keep_w)))))
             path = z3.If(pc[t][(i, j)] != NONE, pc[t][(i, j)], f) if mc["path_cached"] else f
             plan_hit = pl[t][(i, j)] != NONE if mc["plan_cached"] else z3.BoolVal(False)
             res = z3.If(plan_hit, pl[t][(i, j)], path)
             q = z3.And(kind[t] == 1, sel)
-            S.add(z3.Implies(q, z3.And(impl[t] == res, spec[t] == f)))
+            S.add(z3.Implies(q, z3.And(impl[t] == res, spec[t] == fresh(t, i, j, dcl))))
             # cache updates
             pc_q = z3.If(plan_hit, pc[t][(i, j)], path) if mc["path_cached"] else z3.IntVal(NONE)
             pl_q = z3.If(plan_hit, pl[t][(i, j)], z3.If(path != EMPTY, path, z3.IntVal(NONE))) \
